@@ -31,7 +31,8 @@ def make_scheduler(kind, mode="min", seed=11, max_t=4, finite=False, **kw):
         return make(GeometricDifferentialEvolutionHyperbandScheduler, cs, max_resource_attr="epochs", grace_period=1, reduction_factor=2, **mf, **kw)
     if kind == "pbt":
         from syne_tune.optimizer.schedulers.pbt import PopulationBasedTraining
-        return make(PopulationBasedTraining, cs, max_t=max_t, population_size=2, perturbation_interval=1, quantile_fraction=0.5, **mf, **kw)
+        return make(PopulationBasedTraining, cs, max_t=max_t, population_size=kw.pop("population_size", 2), perturbation_interval=1,
+                    quantile_fraction=0.5, **mf, **kw)
     if kind == "median":
         from syne_tune.optimizer.schedulers.median_stopping_rule import MedianStoppingRule
         from syne_tune.optimizer.schedulers.fifo import FIFOScheduler
@@ -62,7 +63,8 @@ def norm_config(cfg):
 
 class Twin:
     def __init__(self, sym, A, B, W=2, T=3, E=8, max_t=4, map_b=None, multi_fidelity=True, max_fail=0,
-                 allow_complete=False, code="TWIN", between=None, snapshot=None, checkpointing=True, lo=-100, hi=100):
+                 allow_complete=False, code="TWIN", between=None, snapshot=None, checkpointing=True, lo=-100, hi=100,
+                 concrete_metrics=False):
         self.sym, self.A, self.B = sym, A, B
         self.W, self.T, self.E, self.max_t = W, T, E, max_t
         self.map_b = map_b or (lambda v: v)
@@ -71,9 +73,11 @@ class Twin:
         self.allow_complete = allow_complete
         self.code = code
         self.between = between          # callback(i) run between events (e.g. perturb the global RNGs)
+        self.ctx = lambda which: None   # called before every call into twin "a" / "b"
         self.snapshot = snapshot        # callable(A, trialsA) -> (B, trialsB), applied at a symbolic event index
         self.checkpointing = checkpointing
         self.lo, self.hi = lo, hi
+        self.concrete_metrics = concrete_metrics
         self.trialsA, self.trialsB = {}, {}
         self.level, self.running, self.paused = {}, [], set()
         self.last = {}
@@ -118,8 +122,10 @@ class Twin:
             kind, tid = opts[sym.choice("c%d" % i, len(opts))]
             if kind == "suggest":
                 nid = len(self.trialsA)
+                self.ctx("a")
                 oa, sa = self._suggest(self.A, self.trialsA, nid)
                 if both:
+                    self.ctx("b")
                     ob, sb = self._suggest(self.B, self.trialsB, nid)
                     sym.check(oa == ob, self.code + ".suggestion-differs", "event %d: A suggests %s, B suggests %s" % (i, oa, ob))
                 if oa[0] == "none":
@@ -130,7 +136,8 @@ class Twin:
                     if nid >= self.T:
                         break
                     self.suggestions.append(oa[1])
-                    for sch, trials, s in ((self.A, self.trialsA, sa),) + (((self.B, self.trialsB, sb),) if both else ()):
+                    for which, sch, trials, s in (("a", self.A, self.trialsA, sa),) + ((("b", self.B, self.trialsB, sb),) if both else ()):
+                        self.ctx(which)
                         trials[nid] = new_trial(nid, s.config)
                         sch.on_trial_add(trials[nid])
                     self.level[nid] = 0
@@ -151,12 +158,17 @@ class Twin:
             elif kind == "report":
                 self.level[tid] += 1
                 r = self.level[tid]
-                v = sym.real("m_%d_%d_%d" % (tid, r, i), self.lo, self.hi)
+                if self.concrete_metrics:
+                    v = float((tid * 7 + r * 3) % 11) + 0.01 * tid      # fixed table in general position
+                else:
+                    v = sym.real("m_%d_%d_%d" % (tid, r, i), self.lo, self.hi)
                 ra = {"m": v, "r": r} if self.mf else {"m": v}
+                self.ctx("a")
                 da = self.A.on_trial_result(self.trialsA[tid], dict(ra))
                 if both:
                     rb = dict(ra)
                     rb["m"] = self.map_b(v)
+                    self.ctx("b")
                     db = self.B.on_trial_result(self.trialsB[tid], rb)
                     sym.check(da == db, self.code + ".decision-differs", "event %d trial %d level %d: A %s, B %s" % (i, tid, r, da, db))
                 self.last[tid] = (ra, r)
